@@ -6,7 +6,8 @@
             the real Lexer produced them (M parses them itself);
             name/isfun/params/variadic/btoks = the structured definition for S
    token  = (kind white text)
-   answer = (M S)  with  M,S = (Ok (spelling...)) | (Err msg) | (DefErr index msg)
+   answer = (M S)  with  M = (Ok (spelling...) (prev_white...)) | (Err msg) | (DefErr index msg)
+                         S = (Ok (spelling...)) | (Err msg)
    Definitions only. *)
 From Coq Require Import ZArith String Ascii Bool List.
 From CBI Require Import Lib.Data Lib.Res Model.C03tok Model.C03 Spec.C03.
@@ -82,7 +83,7 @@ Definition enc_sp (k : tkind) (s : string) : data := DStr (spell k s).
 
 Definition enc_M (r : res (list tok)) : data :=
   match r with
-  | Ok l => DList [DStr "Ok"; DList (map (fun t => enc_sp (tk t) (tt t)) l)]
+  | Ok l => DList [DStr "Ok"; DList (map (fun t => enc_sp (tk t) (tt t)) l); DList (map (fun t => of_bool (tw t)) l)]
   | Err e => DList [DStr "Err"; DStr e]
   end.
 Definition enc_S (r : res (list (tkind * string))) : data :=
